@@ -663,3 +663,260 @@ func ruleR49(c *Ctx) {
 	}
 	c.r.note("R49: %d releases into pools other than the node pool table", n)
 }
+
+// R50 COLLAPSE (C11, C17, C05) – a branch point keeps at least two children: in deleteChild of the
+// smallest size class every path on which the fan-out is known to have dropped to one relinks the
+// slot to the remaining child (`*ref = child`, or hands the slot to a helper) before it leaves the
+// function. A one-child node that stays linked is never collapsed later (the test is `== 1`, and
+// the next removal takes it to 0): dead inner nodes accumulate with the history and an empty one
+// on the leftmost/rightmost path makes Minimum/Maximum report "none".
+func ruleR50(c *Ctx) {
+	m := c.m
+	info := m.Info
+	props := []string{"C11", "C17", "C05"}
+	if len(m.Kinds) == 0 {
+		c.r.undecided("R50", "smallest size class", "-", "no inner node kinds found", props...)
+		return
+	}
+	small := m.Kinds[0]
+	for _, k := range m.Kinds {
+		if k.Cap < small.Cap {
+			small = k
+		}
+	}
+	u := m.ByName[small.Struct.Obj().Name()+".deleteChild"]
+	if u == nil || u.Decl == nil {
+		c.r.undecided("R50", "deleteChild of the smallest size class", "node.go", "not found", props...)
+		return
+	}
+	// the slot parameter
+	var slot *types.Var
+	for _, f := range u.Decl.Type.Params.List {
+		if pt, ok := info.TypeOf(f.Type).(*types.Pointer); ok && c.isNodeRefType(pt.Elem()) {
+			for _, nm := range f.Names {
+				slot, _ = info.Defs[nm].(*types.Var)
+			}
+		}
+	}
+	if slot == nil {
+		c.r.undecided("R50", "deleteChild of the smallest size class", m.pos(u.Decl.Pos()), "no slot parameter", props...)
+		return
+	}
+	g := m.cfgOf(u)
+	isRelink := func(n ast.Node) bool {
+		found := false
+		ast.Inspect(n, func(x ast.Node) bool {
+			switch y := x.(type) {
+			case *ast.AssignStmt:
+				for _, l := range y.Lhs {
+					if se, ok := ast.Unparen(l).(*ast.StarExpr); ok && identVar(info, se.X) == slot {
+						found = true
+					}
+				}
+			case *ast.CallExpr:
+				for _, a := range y.Args {
+					if identVar(info, a) == slot && m.calleeUnit(y) != nil {
+						found = true // a helper of the library that receives the slot
+					}
+				}
+			}
+			return true
+		})
+		return found
+	}
+	n := 0
+	for _, gd := range guardsOf(info, g) {
+		be, ok := ast.Unparen(gd.atom.e).(*ast.BinaryExpr)
+		if !ok {
+			continue
+		}
+		var cst ast.Expr
+		switch {
+		case strings.HasSuffix(exprText(be.X), "childrenLen"):
+			cst = be.Y
+		default:
+			continue
+		}
+		tv, has := info.Types[cst]
+		if !has || tv.Value == nil {
+			continue
+		}
+		v, _ := constantInt64(tv)
+		// does the atom (with its truth value) imply childrenLen <= 1 ?
+		single := false
+		switch be.Op {
+		case token.EQL:
+			single = gd.atom.val && v == 1
+		case token.NEQ:
+			single = !gd.atom.val && v == 1
+		case token.LEQ:
+			single = gd.atom.val && v == 1
+		case token.LSS:
+			single = gd.atom.val && v == 2
+		case token.GTR:
+			single = !gd.atom.val && v == 1
+		case token.GEQ:
+			single = !gd.atom.val && v == 2
+		}
+		if !single || gd.succ >= len(gd.b.Succs) {
+			continue
+		}
+		n++
+		key := fmt.Sprintf("%s.deleteChild replaces a node left with one child by that child", small.Struct.Obj().Name())
+		// every path from the edge to an exit passes a relink
+		seen := map[*cfg.Block]bool{}
+		var leak *cfg.Block
+		var walk func(b *cfg.Block)
+		walk = func(b *cfg.Block) {
+			if seen[b] || leak != nil {
+				return
+			}
+			seen[b] = true
+			for _, nd := range b.Nodes {
+				if isRelink(nd) {
+					return
+				}
+			}
+			if len(b.Succs) == 0 {
+				leak = b
+				return
+			}
+			for _, s := range b.Succs {
+				walk(s)
+			}
+		}
+		walk(gd.b.Succs[gd.succ])
+		if leak == nil {
+			c.r.ok("R50", key, m.pos(gd.atom.e.Pos()), "every path under "+exprText(gd.atom.e)+" relinks the slot before the function returns", props...)
+		} else {
+			p := gd.atom.e.Pos()
+			if len(leak.Nodes) > 0 {
+				p = leak.Nodes[len(leak.Nodes)-1].Pos()
+			}
+			c.r.bad("R50", key, m.pos(p), "a path on which the fan-out has dropped to one leaves the function without relinking the slot to the remaining child: the one-child node stays in the tree, is never collapsed afterwards (the next removal takes it to zero children) and dead inner nodes accumulate with the history", props...)
+		}
+	}
+	if n == 0 {
+		c.r.undecided("R50", small.Struct.Obj().Name()+".deleteChild tests for a single remaining child", m.pos(u.Decl.Pos()), "no test that the fan-out dropped to one was found", props...)
+	}
+}
+
+func constantInt64(tv types.TypeAndValue) (int64, bool) {
+	var v int64
+	_, err := fmt.Sscan(tv.Value.ExactString(), &v)
+	return v, err == nil
+}
+
+// R51 DISPATCH (C06, C01, C11, C15) – a dispatcher of the reference type (a method of nodeRef whose
+// kind switch hands the operation to the like-named method of the node layout, one arm per size
+// class) hands EVERY call on: no path from its entry reaches the exit without one of those calls
+// (or a panic). The callers count on it – Delete decrements the size and reports true after
+// deleteChild returns – so a dispatcher that declines for some node state (a fan-out counter that
+// reads 0 is the wrapped count of a full 256-slot node) leaves the key in the tree with the size
+// already reduced.
+func ruleR51(c *Ctx) {
+	m := c.m
+	info := m.Info
+	props := []string{"C06", "C01", "C11", "C15"}
+	n := 0
+	for _, u := range c.sortedUnits() {
+		if u.Decl == nil || u.Lit != nil || u.Body == nil || u.Decl.Recv == nil {
+			continue
+		}
+		if rt := m.Pkg.Scope().Lookup(u.Recv); rt == nil || !c.isNodeRefType(rt.Type()) {
+			continue
+		}
+		sws := c.kindSwitches(u)
+		if len(sws) != 1 {
+			continue
+		}
+		// arms that delegate to the like-named method of a node layout
+		var calls []*ast.CallExpr
+		arms := 0
+		for _, cl := range sws[0].Body.List {
+			cc := cl.(*ast.CaseClause)
+			if cc.List == nil {
+				continue
+			}
+			found := false
+			for _, st := range cc.Body {
+				ast.Inspect(st, func(x ast.Node) bool {
+					call, ok := x.(*ast.CallExpr)
+					if !ok {
+						return true
+					}
+					sel, ok := ast.Unparen(call.Fun).(*ast.SelectorExpr)
+					if !ok || sel.Sel.Name != u.Decl.Name.Name {
+						return true
+					}
+					if nt := namedOf(info.TypeOf(sel.X)); nt != nil && m.kindByStruct(nt) != nil {
+						calls = append(calls, call)
+						found = true
+					}
+					return true
+				})
+			}
+			if found {
+				arms++
+			}
+		}
+		if arms < 3 {
+			continue // not a pure dispatcher (findChild answers inline)
+		}
+		n++
+		key := fmt.Sprintf("%s hands every call on to the node layout", u.Name)
+		isCall := map[*ast.CallExpr]bool{}
+		for _, cl := range calls {
+			isCall[cl] = true
+		}
+		g := m.cfgOf(u)
+		mayRet := mayReturn(info)
+		passes := func(nd ast.Node) bool {
+			hit := false
+			ast.Inspect(nd, func(x ast.Node) bool {
+				if call, ok := x.(*ast.CallExpr); ok {
+					if isCall[call] || !mayRet(call) {
+						hit = true
+					}
+				}
+				return true
+			})
+			return hit
+		}
+		seen := map[*cfg.Block]bool{}
+		var leak *cfg.Block
+		var walk func(b *cfg.Block)
+		walk = func(b *cfg.Block) {
+			if seen[b] || leak != nil || !b.Live {
+				return
+			}
+			seen[b] = true
+			for _, nd := range b.Nodes {
+				if passes(nd) {
+					return
+				}
+			}
+			if len(b.Succs) == 0 {
+				leak = b
+				return
+			}
+			for _, s := range b.Succs {
+				walk(s)
+			}
+		}
+		if len(g.Blocks) > 0 {
+			walk(g.Blocks[0])
+		}
+		if leak == nil {
+			c.r.ok("R51", key, m.pos(u.Decl.Pos()), fmt.Sprintf("every path from the entry passes one of the %d delegating calls or panics", len(calls)), props...)
+		} else {
+			p := u.Decl.Pos()
+			if len(leak.Nodes) > 0 {
+				p = leak.Nodes[len(leak.Nodes)-1].Pos()
+			}
+			c.r.bad("R51", key, m.pos(p), "a path returns without handing the operation to the node: the caller (Delete: size-- and true; Insert: size++) has already counted it, and a fan-out counter that reads 0 is also the wrapped count of a full 256-slot node", props...)
+		}
+	}
+	c.r.note("R51: %d dispatchers of the reference type", n)
+	c.r.floor("R51", 2, "dispatchers", "C06")
+}
